@@ -159,6 +159,7 @@ pub fn gen_value(rng: &mut Rng, ty: &str, pool: &Pool) -> Value {
             }
         }
         "Boxed<u32>" => json!({"v": rng.below(100_000)}),
+        "Nil" => json!({}),
         "Script" => json!([]),
         "Pay" => json!({"nonce": rng.below(1 << 40), "script": []}),
         other => json!(format!("<<no generator for {other}>>")),
@@ -234,6 +235,10 @@ pub fn doc_omitting(h: &HandlerSpec, args: &mut Map<String, Value>, rng: &mut Rn
             body.remove(a.name);
             args.insert(a.name.to_string(), serde_json::from_str(a.default).unwrap_or(Value::Null));
         }
+    }
+    // (a member no parameter is named after is ignored by every message)
+    if rng.chance(1, 12) {
+        body.insert("zz_unknown".to_string(), json!(rng.below(9)));
     }
     doc_for(h, &body)
 }
